@@ -98,13 +98,16 @@ pub fn lists(thorough: bool, seed: usize) -> Vec<Vec<Vec<u8>>> {
 }
 
 pub static SAFETY_ONLY: std::sync::atomic::AtomicBool = std::sync::atomic::AtomicBool::new(false);
+/// C10: relational mode — span search vs sub-slice search, bytes outside the span flipped
+pub static SPAN_REL: std::sync::atomic::AtomicBool = std::sync::atomic::AtomicBool::new(false);
 
 pub fn run(args: &Args) -> Report {
     SAFETY_ONLY.store(args.get("mode", "def") == "safety", std::sync::atomic::Ordering::Relaxed);
+    SPAN_REL.store(args.get("mode", "def") == "span", std::sync::atomic::Ordering::Relaxed);
     let thorough = args.thorough();
     let seed = args.num("seed", 0);
     let rep = Report::new(
-        if args.get("mode", "def") == "safety" { "packed[safety]" } else { "packed" },
+        match args.get("mode", "def").as_str() { "safety" => "packed[safety]", "span" => "packed[span]", _ => "packed" },
         format!("{} pattern lists (fingerprint-collision, bucket-overflow, prefix families + random), x {{leftmost-first, leftmost-longest}} x variants {:?}; haystacks of every length 0..={} (random over the list's alphabet, planted occurrences) with every span for length <= 20 and 12 sampled spans beyond",
                 lists(thorough, seed).len(), VARS, if thorough { 140 } else { 100 }),
         "case = (pattern list, kind, variant, haystack, span): Searcher::find_in and find_iter vs the leftmost definition; non-trivial = some pattern occurs".into(),
@@ -171,6 +174,16 @@ pub fn run(args: &Args) -> Report {
                             let e = st + r2.below(h.len() - st + 1);
                             check(&rep, var, kind, pats, &s, h, st, e);
                         }
+                        // spans of at least a vector width that end shortly before the haystack does
+                        // (occurrences straddling the span end)
+                        for back in 1..=6usize {
+                            let e = h.len() - back;
+                            for st in [0usize, 1, e.saturating_sub(17), e.saturating_sub(33), e.saturating_sub(65)] {
+                                if st <= e {
+                                    check(&rep, var, kind, pats, &s, h, st, e);
+                                }
+                            }
+                        }
                     }
                     if rep.full() {
                         return;
@@ -200,6 +213,30 @@ fn check(rep: &Report, var: Var, kind: Kind, pats: &[Vec<u8>], s: &Searcher, h: 
                 key: format!("packed-safety:{}:pats={}:hay={}:span={}..{}", kind.name(), show_pats(pats), show(h), st, e),
                 what: format!("packed {:?} ({}) on {} haystack '{}' span {}..{}: panicked or reported an out-of-range match: {:?}", var, kind.name(), show_pats(pats), show(h), st, e, got),
                 argv: vec!["packed".into(), "--mode".into(), "safety".into(), "--one-pats".into(), enc_pats(pats), "--one-hay".into(), format!("x{}", hex(h)), "--one-span".into(), format!("{},{}", st, e), "--one-kind".into(), kind.name().into(), "--one-var".into(), vi.to_string()],
+            });
+        }
+        return;
+    }
+    if SPAN_REL.load(std::sync::atomic::Ordering::Relaxed) {
+        let whole = catch_unwind(AssertUnwindSafe(|| s.find_in(h, aho_corasick::Span { start: st, end: e }).map(cv)));
+        let sub = catch_unwind(AssertUnwindSafe(|| {
+            s.find_in(&h[st..e], aho_corasick::Span { start: 0, end: e - st }).map(cv).map(|m| M { pid: m.pid, start: m.start + st, end: m.end + st })
+        }));
+        let mut h2 = h.to_vec();
+        for (i, x) in h2.iter_mut().enumerate() {
+            if i < st || i >= e {
+                *x = x.wrapping_add(1);
+            }
+        }
+        let other = catch_unwind(AssertUnwindSafe(|| s.find_in(&h2, aho_corasick::Span { start: st, end: e }).map(cv)));
+        let ok = matches!((&whole, &sub, &other), (Ok(w), Ok(sb), Ok(o)) if w == sb && w == o);
+        rep.case(matches!(&whole, Ok(Some(_))));
+        if !ok {
+            let vi = VARS.iter().position(|v| *v == var).unwrap();
+            rep.fail(Fail {
+                key: format!("packed-span:{}:pats={}:hay={}:span={}..{}", kind.name(), show_pats(pats), show(h), st, e),
+                what: format!("packed {:?} ({}) on {} haystack '{}' span {}..{}: span search {:?}, sub-slice search shifted {:?}, with the bytes outside the span changed {:?}", var, kind.name(), show_pats(pats), show(h), st, e, whole, sub, other),
+                argv: vec!["packed".into(), "--mode".into(), "span".into(), "--one-pats".into(), enc_pats(pats), "--one-hay".into(), format!("x{}", hex(h)), "--one-span".into(), format!("{},{}", st, e), "--one-kind".into(), kind.name().into(), "--one-var".into(), vi.to_string()],
             });
         }
         return;
